@@ -6,6 +6,7 @@
            keep-or-revert, update_*_count); the answer holds, for every block i, the projected result of
            block i after blocks 1..i-1, i.e. result(B_i | B_1 .. B_{i-1}).
            mode "own":      every block is parsed on its own (name = <prefix>_block_0, a function of the block)
+           mode "same":     as "own", but every block gets the same name (two contracts with one short name)
            mode "contract": the blocks are concatenated into one item list ("tag k JUMPDEST" in front of each,
                             k given with the block; blocks with "raw" are real contract blocks given as items)
                             and parsed at once as the code of a contract; the block name then contains the
@@ -170,9 +171,10 @@ def flags(r):
             "changed": r["emitted"] != r["plain"], "memops": mem}
 
 
-def _parse_own(b):
+def _parse_own(b, same=False):
     pa = W["parser_asm"]
-    blocks = pa.parse_blocks_from_plain_instructions(b["text"], "c", b.get("name", "p"))
+    # mode "same": every block gets the same name, as the blocks of two contracts with one short name do
+    blocks = pa.parse_blocks_from_plain_instructions(b["text"], "c", "twin" if same else b.get("name", "p"))
     return blocks
 
 
@@ -198,7 +200,7 @@ def run_seq(bl, mode="own", detail=False):
         groups = None
     for i, b in enumerate(bl):
         try:
-            blks = groups[i] if groups is not None else _parse_own(b)
+            blks = groups[i] if groups is not None else _parse_own(b, same=(mode == "same"))
         except BaseException as e:
             out.append({"r": {"sfs": "none", "optimized": "none", "stats": "none", "exception": "parse:" + type(e).__name__,
                               "cmp": "none", "enc": "-"}, "f": {"rules": False, "subs": 0, "raised": True, "changed": False, "memops": 0}})
